@@ -76,8 +76,14 @@ class Gen:
     def binomial(self, n, p):
         return self._draw('binomial', n, p)
 
+    seed_pairs = []      # (seed term, state constant) of explicit symbolic seeds: equal seeds <=> equal streams
+
     def seed(self, *a):
-        if a and a[0] is not None:
+        if a and a[0] is not None and core.is_sym(a[0]):
+            st = z3.Int(f'seeded!{next(Gen._fresh)}')
+            Gen.seed_pairs.append((core.lift(a[0]), st))
+            self.state, self.k = st, 0
+        elif a and a[0] is not None:
             self.state, self.k = z3.IntVal(int(a[0]) % 1000), 0      # explicit constant seed: same stream everywhere
         else:
             self.state, self.k = z3.Int(f'entropy!{next(Gen._fresh)}'), 0   # fresh OS entropy: distinct from everything else
@@ -205,14 +211,32 @@ def shadows(w: MCWorld):
         def gettempdir():
             return '/w/tmp'
 
+    class UuidVal(str):
+        """str(uuid) is a unique name; .int is a fresh non-negative solver integer, pairwise distinct from every other uuid's."""
+        @property
+        def int(self):
+            if not hasattr(self, '_int'):
+                v = z3.Int(f'{self}.int')
+                c = core.ctx()
+                c.add_assume(v >= 0)
+                for u in w.__dict__.setdefault('uuid_ints', []):
+                    c.add_assume(v != u)
+                w.uuid_ints.append(v)
+                self._int = core.SymReal(z3.ToReal(v))
+            return self._int
+
+        @property
+        def hex(self):
+            return str(self)
+
     class UuidStub:
         @staticmethod
         def uuid4():
-            return f'uuid{next(w.uuid_n)}'
+            return UuidVal(f'uuid{next(w.uuid_n)}')
 
         @staticmethod
         def uuid1():
-            return f'uuid{next(w.uuid_n)}'
+            return UuidVal(f'uuid{next(w.uuid_n)}')
 
     class GClient:
         def __init__(self, *a, **k):
